@@ -11,6 +11,7 @@ from sa.source import class_assigns
 from sa.props._lib_d import (call_nodes, calls_with, const_value_is, implied, local_def, path_under, peval,
                              reach_under, self_assigns, slice_parts, succ_of, test_value, value_returned)
 from sa.props._lib_d import must_pass_under as _must_pass_under
+from sa.props._lib_d import undecided_tests as undecided_tests
 from sa.props._lib_d import Views
 from sa.props._lib_d import MiniVM, VMError, VMRaise, VMStub, _NativeRaise, facts_at, resolve_locals
 from sa.source import AnalysisError
@@ -173,6 +174,18 @@ def _thr(ctx, g, f, rule, var_text):
     return rule
 
 
+def _all_decided(ctx, g, facts, var, rule, c, srcs=None, avoid=()):
+    """The facts of a boundary point decide every test (reached from ``srcs``) that reads the measured quantity.  When one is left open - the comparison
+    is made by a helper the normaliser did not read through, say - following both outcomes would 'find' a wrong delivery on the branch that cannot
+    be taken: the point is not decided here (note), the evaluated framing rules run the code instead."""
+    core = re.sub(r"^len\((.*)\)$", r"\1", var).split(".")[-1]
+    und = [t for t in undecided_tests(g, facts, srcs=srcs, avoid=avoid) if re.search(r"(?<![\w])" + re.escape(core) + r"(?![\w])", src(g.node(t).ast))]
+    if und:
+        ctx.note(f"{rule}: not decided for {c}: the test {src(g.node(und[0]).ast)[:80]!r} reads {var} in a form that could not be evaluated")
+        return False
+    return True
+
+
 def _line_only(ctx):
     f = _F(ctx, B, "LineOnlyReceiver.dataReceived")
     g = ctx.cfg(f)
@@ -195,6 +208,8 @@ def _line_only(ctx):
     for L, ok_len in ((M - 1, True), (M, True), (M + 1, False)):
         facts = {f"len({lv})": L, "self.MAX_LENGTH": M, "self.transport.disconnecting": False}
         c = q + f" | <complete line of MAX_LENGTH{L - M:+d} bytes>"
+        if not _all_decided(ctx, g, facts, f"len({lv})", r_cb, c, srcs=body, avoid=[head]):
+            continue
         R = reach_under(g, facts, srcs=body, avoid=[head])
         if ok_len:
             w = must_pass_under(g, facts, deliver, srcs=body, to=[g.exit, head])
@@ -208,6 +223,8 @@ def _line_only(ctx):
     for Bn, legit in ((M, True), (M + 1, True), (M + 2, False)):
         facts = {"len(self._buffer)": Bn, "self.MAX_LENGTH": M, "len(self.delimiter)": 2}
         c = q + f" | <pending buffer of MAX_LENGTH{Bn - M:+d} bytes, 2-byte delimiter>"
+        if not _all_decided(ctx, g, facts, "len(self._buffer)", r_pb, c, srcs=tail):
+            continue
         R = reach_under(g, facts, srcs=tail)
         if legit:
             ctx.check(not (R & set(ex_buf)), r_pb, c,
@@ -284,6 +301,8 @@ def _line_receiver(ctx):
     for L, ok_len in ((M - 1, True), (M, True), (M + 1, False)):
         facts = {f"len({lv})": L, "self.MAX_LENGTH": M}
         c = q + f" | <complete line of MAX_LENGTH{L - M:+d} bytes>"
+        if not _all_decided(ctx, g, facts, f"len({lv})", r_cb, c, srcs=after, avoid=[sp]):
+            continue
         R = reach_under(g, facts, srcs=after, avoid=[sp])
         exn = [n for n, _ in exc_cb]
         if ok_len:
@@ -300,6 +319,8 @@ def _line_receiver(ctx):
     for Bn, legit in ((M, True), (M + 1, True), (M + 2, False)):
         facts = {"len(self._buffer)": Bn, "self.MAX_LENGTH": M, "len(self.delimiter)": 2}
         c = q + f" | <pending buffer of MAX_LENGTH{Bn - M:+d} bytes, 2-byte delimiter>"
+        if not _all_decided(ctx, g, facts, "len(self._buffer)", r_pb, c, srcs=hs, avoid=[sp]):
+            continue
         R = reach_under(g, facts, srcs=hs, avoid=[sp])
         exn = [n for n, _ in exc_cb]
         if legit:
@@ -415,6 +436,8 @@ def _intn(ctx):
     for L, ok_len in ((M - 1, True), (M, True), (M + 1, False)):
         facts = {lvar: L, "self.MAX_LENGTH": M}
         c = q + f" | <announced length MAX_LENGTH{L - M:+d}>"
+        if not _all_decided(ctx, g, facts, lvar, r_lb, c, srcs=after, avoid=[head]):
+            continue
         R = reach_under(g, facts, srcs=after, avoid=[head])
         if ok_len:
             ctx.check(not (R & set(en)), r_lb, c, "a string within MAX_LENGTH is refused",
@@ -568,6 +591,8 @@ def _intn(ctx):
             for n_, fits in ((lim - 1, True), (lim, False)):
                 facts = {f"len({sparam})": n_, "self.prefixLength": pl}
                 c = qs + f" | <{n_} bytes, prefixLength {pl}>"
+                if not _all_decided(ctx, gs, facts, f"len({sparam})", r_sl, c):
+                    continue
                 R = reach_under(gs, facts)
                 if fits:
                     w = must_pass_under(gs, facts, [n for n, _ in wr])
@@ -655,8 +680,10 @@ def _netstring(ctx):
         r_nl = _thr(ctx, g, f, "netstring/limit-boundary", "length")
         for L, ok_len in ((M - 1, True), (M, True), (M + 1, False)):
             facts = {p: str(L).encode(), "self.MAX_LENGTH": M}
-            R = reach_under(g, facts)
             c = q + f" | <length MAX_LENGTH{L - M:+d}>"
+            if not _all_decided(ctx, g, facts, "length", r_nl, c):
+                continue
+            R = reach_under(g, facts)
             if ok_len:
                 ctx.check(not (R & set(rz)) and g.exit in R, r_nl, c, "a netstring within MAX_LENGTH is refused")
             else:
@@ -1363,6 +1390,23 @@ MUTANTS = [
            expect_rule="line-only/segmentation-invariant"),
 ]
 SILENT = [
+    Silent("line-busy-flag-through-a-context-manager-class", B,
+           "        try:\n            self._busyReceiving = True\n            self._buffer += data\n            while self._buffer and not self.paused:\n",
+           "        with _Receiving(self):\n            self._buffer += data\n            while self._buffer and not self.paused:\n",
+           more=[(B, "                    if why:\n                        return why\n        finally:\n            self._busyReceiving = False\n", "                    if why:\n                        return why\n"),
+                 (B, "class LineReceiver(protocol.Protocol, _PauseableMixin):", "class _Receiving:\n    __slots__ = (\"_receiver\",)\n\n    def __init__(self, receiver):\n        self._receiver = receiver\n\n"
+                  "    def __enter__(self):\n        self._receiver._busyReceiving = True\n\n    def __exit__(self, excType, excValue, traceback):\n        self._receiver._busyReceiving = False\n\n\n"
+                  "class LineReceiver(protocol.Protocol, _PauseableMixin):")]),
+    Silent("line-only-lines-from-a-generator-helper", B,
+           "        lines = (self._buffer + data).split(self.delimiter)\n        self._buffer = lines.pop(-1)\n        for line in lines:\n            if self.transport.disconnecting:\n",
+           "        for line in self._completeLines(data):\n            if self.transport.disconnecting:\n",
+           more=[(B, "    def dataReceived(self, data):\n        \"\"\"\n        Translates bytes into lines, and calls lineReceived.\n        \"\"\"\n",
+                  "    def _completeLines(self, data):\n        lines = (self._buffer + data).split(self.delimiter)\n        self._buffer = lines.pop(-1)\n        for line in lines:\n            yield line\n\n"
+                  "    def dataReceived(self, data):\n        \"\"\"\n        Translates bytes into lines, and calls lineReceived.\n        \"\"\"\n")]),
+    Silent("length-tests-through-a-static-limit-helper", B, "            if len(line) > self.MAX_LENGTH:\n                return self.lineLengthExceeded(line)\n            else:\n",
+           "            if _over(len(line), self.MAX_LENGTH):\n                return self.lineLengthExceeded(line)\n            else:\n",
+           more=[(B, "                        if lineLength > self.MAX_LENGTH:\n", "                        if _over(lineLength, self.MAX_LENGTH):\n"),
+                 (B, "class LineOnlyReceiver(protocol.Protocol):", "def _over(length, limit):\n    return length > limit\n\n\nclass LineOnlyReceiver(protocol.Protocol):")]),
     Silent("line-only-threshold-respelled", B, _LO,
            "        if not len(self._buffer) < len(self.delimiter) + self.MAX_LENGTH:\n            return self.lineLengthExceeded(self._buffer)\n"),
     Silent("line-only-complete-respelled", B, "            if len(line) > self.MAX_LENGTH:\n                return self.lineLengthExceeded(line)\n            else:\n                self.lineReceived(line)\n",
